@@ -208,6 +208,8 @@ func (r *Run) StartAgent() int {
 		registerAgent(r, inc, a)
 		a.Run()
 		markDone(r.runReturned(inc))
+		// main() returns after Run(): the process exits, all other goroutines die
+		vsim.ProcessExit()
 	})
 	// boot: until the PFCP listener and the HTTP listener exist (or the process died)
 	r.Sim.RunUntil(func() bool {
